@@ -761,6 +761,7 @@ func (m *Machine) mergeRegion(fr *frame, in *ssa.If, c *Term, join *ssa.BasicBlo
 	m.freshOn++
 	if m.freshOn == 1 {
 		m.fresh = map[*value]int{}
+		m.freshMaps = map[*MapV]int{}
 	}
 	defer func() { m.freshOn-- }()
 
@@ -828,6 +829,8 @@ func (m *Machine) mergeRegion(fr *frame, in *ssa.If, c *Term, join *ssa.BasicBlo
 							end.order = append(end.order, u.p)
 						}
 						end.writes[u.p] = copyVal(*u.p)
+					case 4:
+						// lock counter bookkeeping
 					default:
 						fail, failWhy = true, "map write in region"
 					}
